@@ -26,7 +26,8 @@ CASE_TWIN = {'Formula:CO': 'Formula:Co', 'Formula:Co': 'Formula:CO'}
 # near-miss values: different modification values that a sloppy comparison takes for the same - letter case only;
 # equal hash() in CPython (hash(-1) == hash(-2)); equal up to a float tolerance
 VALUE_TWIN = dict(CASE_TWIN)
-VALUE_TWIN.update({-1: -2, -2: -1, 15.9949: 15.995, 79.966331: 79.9663})
+VALUE_TWIN.update({-1: -2, -2: -1, 15.9949: 15.995, 79.966331: 79.9663, 42.010565: 42.0105651,
+                   9007199254740993: 9007199254740992})
 GLYCAN = ['Glycan:Hex', 'Glycan:HexNAc2Hex3', 'Glycan:HexNAc', 'Glycan:Fuc1Hex1']
 OBS = ['Obs:+12.5', 'Obs:-3.25', 'U:+15.99']
 TAG = ['Phospho#g1', '#g1(0.5)', 'Oxidation#g2(0.9)']
@@ -34,7 +35,9 @@ ALT = ['Oxidation|INFO:x', 'Obs:+5.5|INFO:y', 'Acetyl|Obs:+42.01']
 INFO = ['INFO:note']
 POISON = ['NotAMod', 'UNIMOD:999999', 'Formula:Zz2', 'Glycan:Foo', 'Obs:abc', 'Glycan:hex', 'Glycan:Hexx2', 'phospho ', 'Formula:c2']   # incl. near-misses of real names
 
-FAMILIES = {'poisonvals': POISON, 'int': NUM_INT, 'float': NUM_FLOAT, 'unimod': UNIMOD, 'acc': ACC, 'formula': FORMULA,
+# integers a double cannot hold (2**53 + 1 ...): exact as Python ints, lossy through float()
+BIGINT = [9007199254740993, -100000000000000003]
+FAMILIES = {'bigint': BIGINT, 'poisonvals': POISON, 'int': NUM_INT, 'float': NUM_FLOAT, 'unimod': UNIMOD, 'acc': ACC, 'formula': FORMULA,
             'glycan': GLYCAN, 'obs': OBS, 'tag': TAG, 'alt': ALT, 'info': INFO}
 MASSABLE = ['int', 'float', 'unimod', 'acc', 'formula', 'glycan', 'obs', 'tag', 'alt']
 COMPABLE = ['unimod', 'acc', 'formula', 'glycan', 'tag']  # have an elemental composition
